@@ -167,6 +167,7 @@ class SpendingStatusNotificationRequest(SpendingStatusNotification):
         AvpGenDef("sn_request_type", AVP_TGPP_SN_REQUEST_TYPE, VENDOR_TGPP),
         AvpGenDef("proxy_info", AVP_PROXY_INFO, type_class=ProxyInfo),
         AvpGenDef("route_record", AVP_ROUTE_RECORD),
+        AvpGenDef("origin_aaa_protocol", AVP_ORIGIN_AAA_PROTOCOL),
     )
 
     def __post_init__(self):
